@@ -144,6 +144,12 @@ func (mt *MoreThuente) Iterate(f, g float64) (Operation, float64, error) {
 			return NoOperation, mt.step, ErrLinesearcherFailure
 		}
 	}
+	if !mt.bracketed && mt.x != 0 && math.Abs(mt.step-mt.x) <= mt.StepTolerance*math.Abs(mt.step) {
+		// The trial steps have come closer to each other than StepTolerance
+		// without bracketing a minimizer. Further extrapolation would
+		// proceed by a rounding error at a time.
+		return NoOperation, mt.step, ErrLinesearcherFailure
+	}
 	if mt.step == mt.MaximumStep && f <= fTest && g <= gTest {
 		return NoOperation, mt.step, ErrLinesearcherBound
 	}
